@@ -66,6 +66,44 @@ PROPS = {
         "technique": "online start-iff monitor with scripted gates and injected window clock",
         "jobs": [dict(FSM_JOB)],
     },
+    "C07": {
+        "title": "Motion is reported exactly per the configured thresholds (fixed threshold)",
+        "level": "exploration",
+        "rule": "Seeded FFC-free streams (1..3*gap+5 frames, resets at random positions) on random configurations: resolution 4x4..12x10 (every 50th case 160x120), edge 0-3, gap {1,2,3,5,45}, "
+                "count-thresh {1,2,3,interior,interior+1}, delta {0,1,30,200,65534}, temp-thresh {0,3000,28000,65535}, full warmer x one-diff matrix; pixel values drawn from a palette at the "
+                "temp/delta boundaries and extremes, number of changed pixels biased to count-thresh-1/count-thresh/+1. Even cases call Detect() in-package, odd cases the public MotionProcessor + MotionDetected callback. "
+                "RefDetector (whole history, no rings) decides every frame. Non-trivial = stream with at least one motion frame; distinct by (config, pixels, verdicts).",
+        "assumptions": COMMON_ASSUME + ["RefDetector (harness/motion/det_common_test.go) is the specification", "all frames carry TimeOn-LastFFCTime >= 10 s"],
+        "level_text": "Reference-model monitor in lock-step with the real detector over boundary-biased random streams and the full mode matrix; judged per frame on the boolean verdict (the changed-pixel count is internal).",
+        "level_note": "Pixel/threshold boundary cases are targeted by the generator, not enumerated.",
+        "technique": "reference-model runtime monitor (lock-step differential)",
+        "jobs": [{"pkg": "motion", "test": "TestVerif_C07", "shards": (16, 16), "timeout": (300, 2400), "require": ["frames", "motion_frames", "frames_at_count_boundary", "streams_via_processor_api", "streams_via_detect"]}],
+    },
+    "C08": {
+        "title": "Edge-border pixels and sub-threshold (cold) pixels never influence detection",
+        "level": "exploration",
+        "rule": "Pairs of streams run through two real MotionProcessors in lock-step: base stream (moving hot block with FFC events and resets, or boundary-biased random) and a variant that differs only in border pixels "
+                "(random/extreme/zero values; fixed and dynamic threshold) or only in pixels <= temp-thresh in both (fixed threshold). Compared: per-frame MotionDetected, motion-sink trace incl. trigger threshold, "
+                "and (dynamic) interior background and threshold after every frame. Non-trivial = pair with varied pixels and at least one motion frame.",
+        "assumptions": COMMON_ASSUME,
+        "level_text": "Paired-execution comparator over seeded stream pairs; any divergence in detection, recording boundaries, interior background or dynamic threshold is a violation.",
+        "level_note": "edge-pixels = 0 makes the border variant vacuous (only the sub-threshold variant runs there).",
+        "technique": "paired-execution comparator",
+        "jobs": [{"pkg": "motion", "test": "TestVerif_C08", "shards": (16, 16), "timeout": (300, 2400), "require": ["pairs_border", "pairs_sub-threshold", "motion_frames", "recordings", "pixels_varied"]}],
+    },
+    "C09": {
+        "title": "No detection during/after FFC; no comparison across an FFC or camera reset",
+        "level": "exploration",
+        "rule": "History pairs P.F.S / P'.F.S on two real detectors (every third case through the public MotionProcessor API): P, P' of equal length and telemetry but different pixels "
+                "(or, for resets, different lengths ending in >= 2 unaffected frames); F.S common, starting with an FFC-affected frame (fixed and dynamic threshold) or a reset (fixed threshold). "
+                "FFC events at random positions, irregular TimeOn steps (period lengths 1..90 frames), power-on and negative ages, back-to-back FFCs, gap {1,2,3,5,45}. "
+                "Oracles: (a) no motion on an affected frame or the frame directly after one; (b) verdicts on F.S identical in both runs. Non-trivial = pair with motion after the period.",
+        "assumptions": COMMON_ASSUME + ["FFC period = 10 s as in the property"],
+        "level_text": "Online suppression assertion on telemetry vs callback plus a paired-history comparator deciding independence from pre-FFC / pre-reset content.",
+        "level_note": "Frames inside the FFC period may legitimately serve as comparison frames afterwards; only frames from before it are excluded by the property.",
+        "technique": "online assertion + paired-execution comparator",
+        "jobs": [{"pkg": "motion", "test": "TestVerif_C09", "shards": (16, 16), "timeout": (300, 2400), "require": ["history_pairs", "suppressed_window_frames", "motion_frames_after_period", "pairs_with_reset", "pairs_with_ffc"]}],
+    },
     "C12": {
         "title": "Sinks see writes only inside start..stop; faults never crash the pipeline",
         "level": "fault_enumeration",
@@ -78,6 +116,20 @@ PROPS = {
         "level_note": "Enumeration is complete for sequences up to the stated length on the listed configurations; longer histories and fault combinations are sampled. The real CPTVFileRecorder under real I/O faults is exercised by the pipeline job.",
         "technique": "protocol-automaton monitors on injected sinks with exhaustive single-fault placement",
         "jobs": [{"pkg": "motion", "test": "TestVerif_C12", "shards": (16, 16), "timeout": (300, 2400), "require": ["single_fault_runs", "recoveries_checked", "random_faults_injected"]}],
+    },
+    "C15": {
+        "title": "Dynamic threshold tracks the background mean within its configured bounds",
+        "level": "exploration",
+        "rule": "Seeded streams (10..140 frames; static/warming/cooling/stepping/extreme scenes with a hot moving block, FFC periods, resets) through a real MotionProcessor with dynamic threshold; "
+                "(tmin,tmax) in {unset,set}^2 incl. tmin=tmax; scene level below/inside/above the range; preview*fps in {0,1,9,45}; edge 0-3. After every frame the monitor reads the detector in-package: "
+                "interior background <= frame, border = nearest interior pixel, re-seed on the first non-FFC frame after FFC/reset/start, threshold = clamp(exact integer mean) +-1 whenever the background changed and "
+                "more than preview*fps updates happened (else unchanged or clamped mean); background/threshold passed to StartRecording equal the detector state at the trigger. "
+                "Non-trivial = stream with at least one threshold recomputation.",
+        "assumptions": COMMON_ASSUME + ["+-1 absorbs float accumulation and truncation of the mean"],
+        "level_text": "In-package invariant monitor evaluated after every Detect, plus comparison of the snapshot handed to the motion sink.",
+        "level_note": "The 'recompute after more than preview*fps background updates' schedule is taken from the detector's design; the property fixes only the value.",
+        "technique": "invariant monitor on hooked (in-package) state",
+        "jobs": [{"pkg": "motion", "test": "TestVerif_C15", "shards": (16, 16), "timeout": (300, 2400), "require": ["frames", "threshold_recomputations", "reseeds", "recording_starts_checked", "ffc_frames"]}],
     },
     "C17": {
         "title": "Continuous recorder tiles the stream; a test recording is 21 consecutive frames",
